@@ -63,7 +63,8 @@ Print Assumptions C02_property_key.
    of every shape — named, tuple, newtype, unit — generic or not, rename / rename_all / rename_all_fields / skip,
    struct-level tag, all four enum representations incl. newtype variants of an internally tagged enum around a struct,
    recursion, `inline` fields, `optional` / `optional = nullable` on Option
-   fields and `optional_fields` on the container; no flatten / type / as overrides; arrays of at most ARRAY_TUPLE_LIMIT
+   fields and `optional_fields` on the container, `flatten` of a struct with named fields (no tag, no flattened field of its own) into a
+   definition without type parameters; no type / as overrides, no flatten of enums or maps; arrays of at most ARRAY_TUPLE_LIMIT
    elements, so that the binding is the tuple of exactly that length; a tag key is no field key; the variants of a tagged
    enum have distinct names on the wire; every definition has a declaration and declaration names are distinct), for
    EVERY closed type expression over it, EVERY JSON value whose objects have distinct keys, and every evaluation depth f:
@@ -189,6 +190,24 @@ Example C02_acceptance_newtype_nonvacuous :
     (* a required field of the content missing: not a member, and rejected *)
     memberb E 12 a (JObj [(lit "type", JStr (lit "Text")); (lit "body", JStr (lit "hi"))]) = false /\
     de C01_example.up R 132 C01_newtype.t (JObj [(lit "type", JStr (lit "Text")); (lit "body", JStr (lit "hi"))]) = DReject.
+Proof.
+  cbv zeta. split; [vm_compute; reflexivity|]. eexists.
+  split; [vm_compute; reflexivity|]. split; [vm_compute; reflexivity|]. split; [vm_compute; reflexivity|].
+  split; vm_compute; reflexivity.
+Qed.
+
+(* flatten (C01_flatten): Doc { doc_title, #[serde(flatten)] meta: Meta { id, ver }, pages } under camelCase *)
+Example C02_acceptance_flatten_nonvacuous :
+  let R := C01_flatten.R in
+  let E := env_of C01_example.up C01_example.al is_ascii_digit R 10 in
+  let j := JObj [(lit "docTitle", JStr (lit "t")); (lit "id", JInt 1); (lit "ver", JInt 2); (lit "pages", JInt 9)] in
+  de_envb C01_example.up C01_example.al is_ascii_digit R 10 = true /\
+  exists a, name_of R C01_flatten.t = Ok a /\
+    memberb E 12 a j = true /\
+    de C01_example.up R 132 C01_flatten.t j = DOk (VStruct [VStr (lit "t"); VStruct [VInt 1; VInt 2]; VInt 9]) /\
+    (* a field of the flattened struct missing: not a member, and rejected *)
+    memberb E 12 a (JObj [(lit "docTitle", JStr (lit "t")); (lit "id", JInt 1); (lit "pages", JInt 9)]) = false /\
+    de C01_example.up R 132 C01_flatten.t (JObj [(lit "docTitle", JStr (lit "t")); (lit "id", JInt 1); (lit "pages", JInt 9)]) = DReject.
 Proof.
   cbv zeta. split; [vm_compute; reflexivity|]. eexists.
   split; [vm_compute; reflexivity|]. split; [vm_compute; reflexivity|]. split; [vm_compute; reflexivity|].
